@@ -236,11 +236,13 @@ theorem Mono.trans {rem rem' : List Cb} {s1 s2 s3 : KState ℚ σ} (h12 : Mono r
     (hgone : ∀ c, Gone rem s1 c → Gone rem' s2 c) : Mono rem s1 s3 := by
   refine ⟨?_, ?_, ?_, ?_⟩
   · intro e o ho
-    rcases h12.out e o ho with h | h
-    · rcases h23.out e o h with h' | h'
+    rcases h12.out e o ho with h | ⟨h, v, w, hv, hw⟩
+    · rcases h23.out e o h with h' | ⟨h', hvw⟩
       · exact Or.inl h'
-      · exact Or.inr (hsub e h')
-    · exact Or.inr h
+      · exact Or.inr ⟨hsub e h', hvw⟩
+    · rcases h23.out e _ hw with h' | ⟨_, v', w', hv', hw'⟩
+      · exact Or.inr ⟨h, v, w, hv, h'⟩
+      · exact Or.inr ⟨h, v, w', hv, hw'⟩
   · intro e ho; exact h23.keep e (h12.keep e ho)
   · intro e ho
     rw [← h12.count e ho]
